@@ -549,10 +549,11 @@ func c15(c *fw.Ctx) {
 		k := k
 		c.Run(fmt.Sprintf("utf8/%d", k), func(r *fw.Rec) {
 			rng := r.Rng
+			caseHints := map[gozxing.DecodeHintType]interface{}{gozxing.DecodeHintType_PURE_BARCODE: true}
 			for rep := 0; rep < 10; rep++ {
 				var sb strings.Builder
 				n := 1 + rng.Intn(40)
-				kind := rng.Intn(9)
+				kind := rng.Intn(10)
 				if kind == 7 {
 					// long payloads: an ASCII prefix whose length straddles round numbers of bytes
 					// (a decoder that inspects only a prefix of the segment must still see what follows),
@@ -587,6 +588,8 @@ func c15(c *fw.Ctx) {
 						}
 					case 7:
 						sb.WriteRune([]rune{0xE9, 0x3042, 0x4E2D, 0x1F600, 0x439}[rng.Intn(5)])
+					case 9: // plain ASCII in byte mode (a lower-case letter): whatever is guessed for it must not outlive the call
+						sb.WriteByte(byte('a' + rng.Intn(26)))
 					case 8: // only four-byte characters, every continuation byte in 0xA0..0xBF (plane 2), between ASCII
 						if i%3 == 1 {
 							sb.WriteByte(byte(0x20 + rng.Intn(0x5F)))
@@ -607,7 +610,13 @@ func c15(c *fw.Ctx) {
 					return
 				}
 				bmp, _ := gozxing.NewBinaryBitmapFromImage(img)
-				res, derr := qrcode.NewQRCodeReader().Decode(bmp, map[gozxing.DecodeHintType]interface{}{gozxing.DecodeHintType_PURE_BARCODE: true})
+				// one decode-hint map for the whole case (an application's settings object): it says
+				// nothing about the character set, and it must still say nothing after every read
+				res, derr := qrcode.NewQRCodeReader().Decode(bmp, caseHints)
+				if len(caseHints) != 1 {
+					r.Violation("roundtrip", "qr.utf8-nohint:decode-hint-map-changed", fmt.Sprintf("after reading an unhinted symbol the caller's decode-hint map is %v (it held PURE_BARCODE only)", caseHints), info)
+					return
+				}
 				if derr != nil {
 					r.Violation("roundtrip", "qr.utf8-nohint:decode-error", fmt.Sprintf("unhinted UTF-8 symbol rejected: %v", derr), info)
 					return
